@@ -141,10 +141,20 @@ def rule_inst(rep: Report, rid="C15.inst") -> None:
         cls = f.cls(cq)
         n_sites = 0
         for fi in cls.methods.values():
+            aliases = {}
+            for n in ast.walk(fi.node):
+                if isinstance(n, ast.Assign) and len(n.targets) == 1 and isinstance(n.targets[0], ast.Name) and isinstance(n.value, ast.Attribute) \
+                        and isinstance(n.value.value, ast.Name) and n.value.value.id == "self":
+                    aliases[n.targets[0].id] = n.value.attr
             for n in ast.walk(fi.node):
                 w = None
                 if isinstance(n, ast.Attribute) and isinstance(n.ctx, (ast.Store, ast.Del)) and isinstance(n.value, ast.Name) and n.value.id == "self":
                     w = f"self.{n.attr} (assignment)"
+                if isinstance(n, ast.Call) and isinstance(n.func, ast.Attribute) and n.func.attr in Interp.MUTATORS and isinstance(n.func.value, ast.Name) \
+                        and n.func.value.id in aliases:
+                    w = f"{n.func.value.id}.{n.func.attr}() on an alias of self.{aliases[n.func.value.id]}"
+                if isinstance(n, ast.Subscript) and isinstance(n.ctx, (ast.Store, ast.Del)) and isinstance(n.value, ast.Name) and n.value.id in aliases:
+                    w = f"{n.value.id}[...] = ... on an alias of self.{aliases[n.value.id]}"
                 if isinstance(n, ast.Call) and isinstance(n.func, ast.Attribute) and n.func.attr in Interp.MUTATORS and isinstance(n.func.value, ast.Attribute) \
                         and isinstance(n.func.value.value, ast.Name) and n.func.value.value.id == "self":
                     w = f"self.{n.func.value.attr}.{n.func.attr}() (in-place change)"
@@ -223,10 +233,11 @@ def rule_det(rep: Report, rid="C15.det") -> None:
                 n += 1
                 if (isinstance(node.func, ast.Name) and last in ("id", "hash")) or (nm.split(".")[0] in DET_BAD_MODULES) or (last in DET_BAD_CALLS and "." in nm and nm.split(".")[0] in DET_BAD_MODULES | {"os"}):
                     bad = nm
-                if isinstance(node.func, ast.Name) and node.func.id in ("set", "frozenset"):
-                    bad = "set(...) (iteration order of strings varies between runs)"
-            if isinstance(node, (ast.Set, ast.SetComp)):
-                bad = "set display (iteration order of strings varies between runs)"
+            if isinstance(node, (ast.For, ast.comprehension)) and isinstance(node.iter, (ast.Set, ast.SetComp)):
+                bad = "iteration over a set display (order of strings varies between runs)"
+            if isinstance(node, (ast.For, ast.comprehension)) and isinstance(node.iter, ast.Call) and isinstance(node.iter.func, ast.Name) \
+                    and node.iter.func.id in ("set", "frozenset"):
+                bad = "iteration over set(...) (order of strings varies between runs)"
             if isinstance(node, ast.Attribute) and dotted(node) in ("os.environ",):
                 bad = "os.environ"
             if bad:
